@@ -51,21 +51,22 @@ PERMS = [0o644, 0o755, 0o600, 0o640, 0o444, 0o000, 0o777, 0o4755, 0o2755, 0o1777
 ROOT = os.geteuid() == 0
 
 
-def _probe_mknod():
-    import tempfile
-    d = tempfile.mkdtemp(prefix="bobverif-c11-probe-")
+def _probe_mknod(where):
+    """can device nodes and sockets be created below `where` (inside ctx.tmp)?"""
+    import shutil
+    d = os.path.join(where, "mknod-probe-%d" % os.getpid())
     try:
+        os.makedirs(d)
         os.mknod(os.path.join(d, "c"), stat.S_IFCHR | 0o600, os.makedev(1, 3))
         os.mknod(os.path.join(d, "s"), stat.S_IFSOCK | 0o600)
         return True
     except OSError:
         return False
     finally:
-        import shutil
         shutil.rmtree(d, ignore_errors=True)
 
 
-CAN_MKNOD = ROOT and _probe_mknod()
+CAN_MKNOD = None      # decided once per process inside ctx.tmp, see run_history
 
 
 def hx(b):
@@ -636,12 +637,15 @@ def run_history(job):
     import signal
     from bob.utils import hashDirectory, hashPath, binStat
     quiet()
+    global CAN_MKNOD
+    if CAN_MKNOD is None:
+        CAN_MKNOD = ROOT and _probe_mknod(os.path.dirname(job["dir"]))
 
     def on_alarm(signum, frame):
         signal.setitimer(signal.ITIMER_REAL, 3.0)     # again, should the exception get lost
         raise HistoryTimeout()
     signal.signal(signal.SIGALRM, on_alarm)
-    signal.setitimer(signal.ITIMER_REAL, job.get("limit", 20.0))
+    signal.setitimer(signal.ITIMER_REAL, job.get("limit", 45.0))
     r = random.Random(job["key"])
     base = job["dir"]
     os.makedirs(base)
